@@ -173,7 +173,11 @@ def sem (p : Parsed R) (dir : Dir) (data : List (Coor R)) : List (Coor R) × Nat
   | none => (data, 0)
   | some s =>
     match dir with
-    | .fwd => mapXY (fwd p s) data
+    | .fwd =>
+      -- a result with NaN in it is stomped (`set_xy(i, NAN, NAN)`) and not counted
+      mapXYOpt (fun lon lat =>
+        let r := fwd p s lon lat
+        if Scalar.isNaN r.1 || Scalar.isNaN r.2 then none else some r) data
     | .inv => mapXYOpt (inv p s (p.ellps 0).authalicCoefficients) data
 
 end Laea
